@@ -190,7 +190,7 @@ func runCorr(c *Ctx, seeds []*Seed) {
 		mut  string
 	}
 	var jobs []job
-	perSeed := c.N(120, 1500)
+	perSeed := c.N(80, 500)
 	for ti := range corrTargets {
 		t := &corrTargets[ti]
 		n := 0
@@ -208,7 +208,7 @@ func runCorr(c *Ctx, seeds []*Seed) {
 				continue
 			}
 			n++
-			if !c.Thor && n%3 != 1 {
+			if !c.Thor && n%3 != 1 || c.Thor && n%2 != 1 {
 				continue
 			}
 			var ms []mutant
@@ -247,7 +247,7 @@ func runCorr(c *Ctx, seeds []*Seed) {
 				jobs = append(jobs, job{t, d, m.mut})
 			}
 		}
-		for k := 0; k < c.N(300, 5000); k++ {
+		for k := 0; k < c.N(300, 3000); k++ {
 			jobs = append(jobs, job{t, randomAfterPrefix(t.fam, rng).data, "random-after-prefix"})
 		}
 	}
